@@ -41,7 +41,7 @@ def corpus() -> list[tuple[str, str]]:
     out: list[tuple[str, str]] = []
     singles = {
         "Constant": ["None", "True", "...", "1", "1.5e3", "1j", "'s'", "b'x'", "'it\\'s'", "'a\"b'"],
-        "Name": ["a"], "Attribute": ["a.b", "a.b.c", "a().b", "'s'.join"],
+        "Name": ["a"], "Attribute": ["a.b", "a.b.c", "a().b", "'s'.join", "a().b.c", "a[0].b.c", "a().b.c.d", "(a + b).c.d"],
         "BinOp": [f"a {op} b" for op in ("+", "-", "*", "/", "//", "%", "**", "@", "<<", ">>", "|", "^", "&")],
         "UnaryOp": ["-a", "+a", "~a", "not a"], "BoolOp": ["a and b", "a or b", "a and b and c", "a or b or c"],
         "Compare": [f"a {op} b" for op in ("==", "!=", "<", "<=", ">", ">=", "is", "is not", "in", "not in")] + ["a < b <= c", "a is b is not c"],
